@@ -71,6 +71,122 @@ DOCS = {
         abstract type A { name: str; annotation title := "a"; }
     '''},
 }
+# Dependency kinds x module placements: each entry is a list of
+# (declaration name, text); `{X}` stands for the qualified name of
+# declaration X.  Every declaration is placed in module m1 or m2 in every
+# combination (quick: all in m1, and each one alone in m2).
+DEPKINDS = {
+    'extending': [('A', 'type {_};'), ('B', 'type {_} extending {A};')],
+    'inh3_overloaded': [
+        ('G', 'abstract type {_} {{ property name: str; }}'),
+        ('P', 'type {_} extending {G};'),
+        ('C', 'type {_} extending {P} {{ overloaded required property '
+              'name: str; }}')],
+    'inh3_link_overloaded': [
+        ('T', 'type {_};'),
+        ('G', 'abstract type {_} {{ link l: {T}; }}'),
+        ('P', 'abstract type {_} extending {G};'),
+        ('C', 'type {_} extending {P} {{ overloaded required link l: {T} '
+              '{{ annotation title := "x" }} }}')],
+    'path_through_link': [
+        ('A', 'type {_} {{ p: str; q: str; }}'),
+        ('B', 'type {_} {{ l: {A}; c := .l.p ++ .l.q; }}')],
+    'computed_link_twice': [
+        ('Addr', 'type {_} {{ street: str; city: str; }}'),
+        ('Per', 'type {_} {{ home: {Addr}; link res := .home; '
+                'property label := .res.street ++ ", " ++ .res.city; }}')],
+    'computed_link_chain': [
+        ('X', 'type {_} {{ v: int64; w: int64; }}'),
+        ('Y', 'type {_} {{ x: {X}; link x1 := .x; }}'),
+        ('Z', 'type {_} {{ y: {Y}; link y1 := .y; s := .y1.x1.v + '
+              '.y1.x1.w + .y1.x.v; }}')],
+    'default_function': [
+        ('f', 'function {_}() -> str using ("d");'),
+        ('A', 'type {_} {{ p: str {{ default := {f}() }} }}')],
+    'constraint_function': [
+        ('f', 'function {_}(s: str) -> bool using (len(s) > 1);'),
+        ('S', 'scalar type {_} extending str {{ constraint expression on '
+              '({f}(__subject__)) }}'),
+        ('A', 'type {_} {{ p: {S}; }}')],
+    'index_on_computed': [
+        ('A', 'type {_} {{ a: str; b: str; c := .a ++ .b; index on (.c); '
+              'constraint exclusive on (.c); }}')],
+    'alias_of_alias': [
+        ('T', 'type {_} {{ n: str; }}'),
+        ('A1', 'alias {_} := (select {T} {{ m := .n ++ "!" }});'),
+        ('A2', 'alias {_} := (select {A1} filter .m != "");')],
+    'global_policy': [
+        ('g', 'global {_}: str;'),
+        ('T', 'type {_} {{ n: str; access policy p allow all using '
+              '((.n ?= global {g})); }}')],
+    'computed_global': [
+        ('T', 'type {_} {{ n: str; }}'),
+        ('g', 'global {_}: str;'),
+        ('me', 'global {_} := (select {T} filter .n = global {g});'),
+        ('U', 'type {_} {{ required t: {T} {{ default := (select '
+              '(global {me}) limit 1) }} }}')],
+    'function_arg_types': [
+        ('E', 'scalar type {_} extending enum<a, b>;'),
+        ('T', 'type {_} {{ e: {E}; }}'),
+        ('f', 'function {_}(t: {T}) -> optional {E} using (t.e);'),
+        ('h', 'function {_}(t: {T}) -> optional str using '
+              '(<str>{f}(t));')],
+    'linkprop_default': [
+        ('f', 'function {_}() -> int64 using (1);'),
+        ('L', 'abstract link {_} {{ w: int64 {{ default := {f}() }} }}'),
+        ('B', 'type {_};'),
+        ('A', 'type {_} {{ multi link bs extending {L}: {B}; }}')],
+    'backlink_computed': [
+        ('A', 'type {_} {{ multi bs: {B}; }}'),
+        ('B', 'type {_} {{ multi link owners := .<bs[is {A}]; n := '
+              'count(.owners); }}')],
+    'union_target': [
+        ('A', 'type {_} {{ n: str; }}'), ('B', 'type {_} {{ n: str; }}'),
+        ('C', 'type {_} {{ l: {A} | {B}; m := .l.n; }}')],
+    'subquery_computed': [
+        ('K', 'type {_} {{ k: str; v: int64; }}'),
+        ('T', 'type {_} {{ k: str; multi link ks := (select {K} filter '
+              '.k = {T}.k); total := sum(.ks.v); }}')],
+    'trigger_rewrite': [
+        ('Log', 'type {_} {{ msg: str; }}'),
+        ('T', 'type {_} {{ n: str {{ rewrite insert, update using '
+              '(str_lower(.n)) }}; trigger lg after insert for each do '
+              '(insert {Log} {{ msg := __new__.n }}); }}')],
+    'scalar_chain': [
+        ('S1', 'scalar type {_} extending int64 {{ constraint '
+               'min_value(0) }}'),
+        ('S2', 'scalar type {_} extending {S1} {{ constraint '
+               'max_value(9) }}'),
+        ('T', 'type {_} {{ s: {S2}; a: array<{S1}>; '
+              't: tuple<x: {S2}, y: str>; }}')],
+    'annotation': [
+        ('an', 'abstract annotation {_};'),
+        ('T', 'type {_} {{ annotation {an} := "x"; p: str {{ annotation '
+              '{an} := "y" }} }}')],
+}
+
+
+def depkind_docs(quick):
+    docs = {}
+    for kind, decls in DEPKINDS.items():
+        names = [n for n, _ in decls]
+        k = len(names)
+        if quick:
+            placements = [tuple(['m1'] * k)] + [
+                tuple('m2' if j == i else 'm1' for j in range(k))
+                for i in range(k)]
+        else:
+            placements = list(itertools.product(('m1', 'm2'), repeat=k))
+        for pl in dict.fromkeys(placements):
+            q = {n: f'{m}::{n}' for n, m in zip(names, pl)}
+            mods = {}
+            for (n, text), m in zip(decls, pl):
+                mods.setdefault(m, []).append(text.format(_=n, **q))
+            docs[f'dep:{kind}:' + ''.join(m[1] for m in pl)] = {
+                m: ' '.join(ts) for m, ts in mods.items()}
+    return docs
+
+
 CYCLIC = {
     'CYC_computed': {'default': '''
         type A { property x := .y; property y := .x; }
@@ -107,6 +223,7 @@ def all_docs(quick):
     for n, d in schemas.SHADOW.items():
         docs[n] = d
     docs.update(DOCS)
+    docs.update(depkind_docs(quick))
     return docs
 
 
@@ -214,7 +331,21 @@ def work(task):
         if base[0] != 'rejected':
             out.append(('cyclic-accepted', (), str(base[1])[:200]))
     elif base[0] != 'ok':
-        return name, 1, [('base-' + base[0], (), base[1])], counts
+        if not name.startswith('dep:') or base[0] == 'internal':
+            return name, 1, [('base-' + base[0], (), base[1])], counts
+        # a generated document the system does not accept as written: it
+        # is outside the property only if NO order is accepted
+        for label, a in variants(ast, quick):
+            n += 1
+            r = apply_ast(a)
+            counts[r[0]] = counts.get(r[0], 0) + 1
+            if r[0] == 'ok':
+                out.append(('order-rejected', ('base',), base[1]))
+                break
+            if r[0] == 'internal':
+                out.append(('internal', label, r[1]))
+        counts['document-rejected-in-every-order'] = 1
+        return name, n, out, counts
     for label, a in variants(ast, quick):
         n += 1
         r = apply_ast(a)
